@@ -20,7 +20,7 @@ RULE = ('caches (and FanoutCache shards) holding inline, binary-file, text-file 
 DISTINCT = ('damage_cases',)
 REQUIRED = ('spelling_relative', 'spelling_dotdot', 'single_damage_cases', 'combined_damage_cases', 'fanout_cases', 'plain_checks_compared', 'fix_then_clean',
             'items_read_after_fix', 'kinds_deleted', 'kinds_truncated', 'kinds_extended', 'kinds_unknown', 'kinds_emptydir',
-            'kinds_count', 'kinds_size')
+            'kinds_count', 'kinds_size', 'journal_mode_wal', 'journal_mode_truncate', 'journal_mode_persist', 'journal_mode_delete')
 ASSUMPTIONS = ('a repair may legitimately add "empty directory" warnings for directories it has just emptied',)
 
 T = 64
@@ -187,15 +187,19 @@ def _case(dc, sc, res, rng, kinds, fanout, label, spelling):
     elif spelling == 'trailing-slash':
         d = d + '/'
     res.count('spelling_' + spelling.replace('-', '_'))
+    # the SQLite journal mode decides which side files (cache.db-wal/-shm or cache.db-journal) live next to cache.db;
+    # none of them is a value file, none is damage
+    journal = gen.pick(rng, ['wal', 'wal', 'truncate', 'persist', 'delete'])
+    res.count('journal_mode_' + journal)
     if fanout:
-        f = dc.FanoutCache(d, shards=3, disk_min_file_size=T)
+        f = dc.FanoutCache(d, shards=3, disk_min_file_size=T, sqlite_journal_mode=journal)
         items = populate(f)
         f.close()
         shard_dirs = [os.path.join(d, '%03d' % i) for i in range(3)]
         target = gen.pick(rng, [s for s in shard_dirs if [r for r in table(s)[0] if r['filename']]] or shard_dirs)
         res.count('fanout_cases')
     else:
-        c = dc.Cache(d, disk_min_file_size=T)
+        c = dc.Cache(d, disk_min_file_size=T, sqlite_journal_mode=journal)
         items = populate(c)
         c.close()
         target = d
@@ -214,7 +218,7 @@ def _case(dc, sc, res, rng, kinds, fanout, label, spelling):
             return
         modes = tuple(sorted({r['mode'] for _, _, r in injected if r}))
         res.seen('damage_cases', (fanout, tuple(sorted(kinds)), modes))
-        wit = {'label': label, 'kinds': kinds, 'fanout': fanout, 'directory_spelling': spelling,
+        wit = {'label': label, 'kinds': kinds, 'fanout': fanout, 'directory_spelling': spelling, 'journal_mode': journal,
                'injected': [(w, os.path.relpath(p, d) if p else None) for w, p, _ in injected]}
         obj = dc.FanoutCache(d, shards=3) if fanout else dc.Cache(d)
         try:
